@@ -16,6 +16,7 @@ func init() {
 func runC04(c *Ctx) {
 	L := c.L
 	c.checkFlagsNotRewritten("option-not-rewritten")
+	c.checkMappedCoordinatesUsed("converted-coordinates-used")
 	L.Assumes("alignment shape invariant: every row reached through the receiver has the cached length (protected by the C01 rules)")
 	L.Trusts("dominance and acyclic path enumeration give path conditions; Fourier-Motzkin elimination over the rationals; integer overflow ignored for sizes")
 
